@@ -8,7 +8,7 @@ import json, os, subprocess, sys, shutil, tempfile
 
 def run(d, tags):
     env = dict(os.environ, GOFLAGS="-mod=mod", GOPROXY="off", GOSUMDB="off", GOTOOLCHAIN="local")
-    cmd = ["go", "test", "-p", "1", "-json", "-vet=off", "-count=1", "-timeout", "25m"]
+    cmd = ["flock", "/var/tmp/gotest6379.lock", "go", "test", "-p", "1", "-json", "-vet=off", "-count=1", "-timeout", "25m"]
     if tags:
         cmd += ["-tags", tags]
     cmd += ["./..."]
